@@ -23,6 +23,15 @@ def opProfile (a : Args) : String :=
     "ok rows=" ++ ",".intercalate ((profileRows L n xs).map (fun r => toString r.1 ++ ":" ++ String.ofList (fmtF d r.2)))
   | _, _, _, _ => "bad-args"
 
-def reportOps : List (String × (Args → String)) := [("figure", opFigure), ("profile", opProfile)]
+/-- `figureg id p=<n> x=<rat>` -> Python's `.{p}g` text in its fixed-notation range -/
+def opFigureG (a : Args) : String :=
+  match a.nat? "p", a.rat? "x" with
+  | some p, some x =>
+    (match fmtG p x with
+     | some t => "ok tag=fig text=" ++ String.ofList t ++ " exact=" ++ showRat x
+     | none => "ok tag=scientific")
+  | _, _ => "bad-args"
+
+def reportOps : List (String × (Args → String)) := [("figure", opFigure), ("profile", opProfile), ("figureg", opFigureG)]
 
 end GeoVerif.Ops
